@@ -12,7 +12,8 @@ From Relay Require Import Base.Prelude Base.AList Model.Rwc.
 
 (* the three tables, when they were read: rules (id, stream, destination; sorted by id), clients
    (id, destination), 10 * destination + stream of every client registered with the messages hub *)
-Definition tables := (list (N * N * N) * list (N * N) * list N)%type.
+(* on the assembled host (vw.Stream()) only the rule listing can be read: the other two are optional *)
+Definition tables := (list (N * N * N) * option (list (N * N) * list N))%type.
 
 Record obs := mkobs {
   o_tables : option tables;
@@ -70,7 +71,8 @@ Definition case := (list op * list (option obs) * list N)%type.
 Definition tables_ok (s : st) (t : option tables) : bool :=
   match t with
   | None => true
-  | Some (rs, cs, ms) => rules_ok s rs && clients_ok s cs && members_ok s ms
+  | Some (rs, Some (cs, ms)) => rules_ok s rs && clients_ok s cs && members_ok s ms
+  | Some (rs, None) => rules_ok s rs
   end.
 
 (* one entry per executed operation; None = nothing was observed after it (a wide table being filled) *)
